@@ -368,9 +368,45 @@ func addrUsedForAccessOnly(v ssa.Value, readOnly bool) bool {
 }
 
 // publish assumes F[a] = H[a] for the given fresh objects (skipping mutable heaps and `except`).
-func (f *Frame) publish(objs provSet, except map[string]bool) {
+func (f *Frame) publish(objs provSet, except map[string]bool) { f.publishExcept(objs, except, nil) }
+
+// publishExcept is publish, except that an object whose address equals one of the given terms
+// (per heap) is not published (it is about to be written by a callee).
+func (f *Frame) publishExcept(objs provSet, except map[string]bool, skip map[string][]string) {
 	ex := f.ex
 	for _, o := range objs.sorted() {
+		if !o.isRange && len(skip[o.heap]) > 0 && !ex.mutable[o.heap] && !except[o.heap] {
+			var ne []string
+			for _, t := range skip[o.heap] {
+				ne = append(ne, "(not (= "+o.addr+" "+t+"))")
+			}
+			cond := ex.def(f.pfx+"pubc", "Bool", and(append([]string{f.pc}, ne...)...))
+			ex.assume(implies(cond, "(= (select "+ex.frozen(o.heap)+" "+o.addr+") (select "+ex.heapTerm(f.st, o.heap)+" "+o.addr+"))"))
+			f.st.published = append(f.st.published, pubRec{o, cond})
+			continue
+		}
+		if o.isRange {
+			hasSkip := false
+			for _, h := range o.rheaps {
+				if len(skip[h]) > 0 {
+					hasSkip = true
+				}
+			}
+			if hasSkip {
+				for _, h := range o.rheaps {
+					if ex.mutable[h] || except[h] {
+						continue
+					}
+					var ne []string
+					for _, t := range skip[h] {
+						ne = append(ne, "(not (= a "+t+"))")
+					}
+					ex.assume(implies(f.pc, "(forall ((a Int)) (! (=> "+and(append([]string{"(<= "+o.lo+" a)", "(< a "+o.hi+")"}, ne...)...)+" (= (select "+ex.frozen(h)+" a) (select "+ex.heapTerm(f.st, h)+" a))) :pattern ((select "+ex.frozen(h)+" a))))"))
+				}
+				// not recorded as published: a later store into the range is checked against earlier publications only
+				continue
+			}
+		}
 		if o.isRange {
 			already := false
 			for _, pr := range f.st.published {
@@ -495,7 +531,24 @@ func (f *Frame) contractCall(c *ssa.CallCommon, ct *FuncContract, callee *ssa.Fu
 	for _, h := range ct.Modifies {
 		mods[h] = true
 	}
-	f.publish(prov, mods)
+	// the objects the callee writes (writes clauses) stay owned by the caller: they are not published
+	// before the call (their content changes during the call)
+	wrTargets := map[string][]string{}
+	var wrTerms []string
+	{
+		envW := f.contractEnv(ct, bind, f.st, f.st)
+		for _, w := range ct.Writes {
+			if _, ok := ex.S.heaps[w.Heap]; !ok {
+				ex.fail("%s: contract of %s writes unknown heap %s", f.key, ct.Key, w.Heap)
+				wrTerms = append(wrTerms, "0")
+				continue
+			}
+			t := ex.def(f.pfx+"wr", "Int", substSX(w.Term, envW))
+			wrTerms = append(wrTerms, t)
+			wrTargets[w.Heap] = append(wrTargets[w.Heap], t)
+		}
+	}
+	f.publishExcept(prov, mods, wrTargets)
 	// ghosts of the callee contract: fresh constants (callee-level ghosts are universally quantified for the callee's proof;
 	// at a call site they must be instantiated — unsupported unless bound by an `at` hint, so they are existential here: skip clauses mentioning them)
 	ghostNames := map[string]bool{}
@@ -559,12 +612,11 @@ func (f *Frame) contractCall(c *ssa.CallCommon, ct *FuncContract, callee *ssa.Fu
 		}
 		f.st.heaps[h] = nh
 	}
-	for _, w := range ct.Writes {
+	for wi, w := range ct.Writes {
 		if _, ok := ex.S.heaps[w.Heap]; !ok {
-			ex.fail("%s: contract of %s writes unknown heap %s", f.key, ct.Key, w.Heap)
 			continue
 		}
-		t := ex.def(f.pfx+"wr", "Int", substSX(w.Term, envPre))
+		t := wrTerms[wi]
 		if !ex.mutable[w.Heap] {
 			alts := []string{"(< " + t + " 0)"}
 			for _, ow := range ex.writable[w.Heap] {
